@@ -1021,6 +1021,207 @@ def gen_json_macro(lines):
 GENERATORS.append(("JsonMacro", gen_json_macro))
 
 
+# ------------------------------------------------------------------ lexical/* (C07)
+def rust_int(tok):
+    tok = tok.strip().replace("_", "")
+    tok = re.sub(r"(u8|u16|u32|u64|u128|usize|i32|i64)$", "", tok)
+    return int(tok, 0)
+
+
+def rust_array(text, name, key, elem=rust_int):
+    """entries of `const NAME: [ty; N] = [ … ];` (comments stripped; declared length checked)"""
+    m = re.search(r"const\s+%s\s*:\s*\[\s*\w+\s*;\s*(\d+)\s*\]\s*=\s*\[(.*?)\]\s*;" % name, strip_rust_comments(text), re.S)
+    if not m:
+        miss(key, "const %s: [ty; N] = […] not found" % name); return []
+    try:
+        xs = [elem(x) for x in m.group(2).split(",") if x.strip()]
+    except Exception as e:
+        miss(key, "entries of %s not understood: %r" % (name, e)); return []
+    if len(xs) != int(m.group(1)):
+        miss(key, "%s declares %s entries but has %d" % (name, m.group(1), len(xs)))
+    return xs
+
+
+def lean_nat_list(xs, per=4):
+    rows = [", ".join(str(x) for x in xs[i:i + per]) for i in range(0, len(xs), per)]
+    return "[" + ",\n   ".join(rows) + "]"
+
+
+def lean_int_list(xs, per=12):
+    rows = [", ".join(("(%d)" % x) if x < 0 else str(x) for x in xs[i:i + per]) for i in range(0, len(xs), per)]
+    return "[" + ",\n   ".join(rows) + "]"
+
+
+def gen_lexical(lines):
+    cf = src("lexical/cached_float80.rs")
+    lines.append("/-! `lexical/cached_float80.rs`: 80-bit cached powers of ten (mantissa, binary exponent) -/")
+    for nm, lean, isint in (("BASE10_SMALL_MANTISSA", "base10SmallMantissa", False), ("BASE10_SMALL_EXPONENT", "base10SmallExponent", True),
+                            ("BASE10_LARGE_MANTISSA", "base10LargeMantissa", False), ("BASE10_LARGE_EXPONENT", "base10LargeExponent", True),
+                            ("BASE10_SMALL_INT_POWERS", "base10SmallIntPowers", False)):
+        xs = rust_array(cf, nm, "lexical.cached." + nm)
+        if isint: lines.append("def %s : List Int :=\n  %s" % (lean, lean_int_list(xs)))
+        else: lines.append("def %s : List Nat :=\n  %s" % (lean, lean_nat_list(xs)))
+    for nm, lean in (("BASE10_STEP", "base10Step"), ("BASE10_BIAS", "base10Bias")):
+        m = re.search(r"const\s+%s\s*:\s*i32\s*=\s*(-?\d+)\s*;" % nm, cf)
+        if not m: miss("lexical.cached." + nm, "const %s: i32 = n not found" % nm)
+        lines.append("def %s : Int := %s" % (lean, m.group(1) if m else "0"))
+    wiring = re.sub(r"\s+", "", strip_rust_comments(cf))
+    want = ("constBASE10_POWERS:ModeratePathPowers=ModeratePathPowers{small:ExtendedFloatArray{mant:&BASE10_SMALL_MANTISSA,exp:&BASE10_SMALL_EXPONENT,},"
+            "large:ExtendedFloatArray{mant:&BASE10_LARGE_MANTISSA,exp:&BASE10_LARGE_EXPONENT,},small_int:&BASE10_SMALL_INT_POWERS,step:BASE10_STEP,bias:BASE10_BIAS,};")
+    if want not in wiring: miss("lexical.cached.wiring", "BASE10_POWERS no longer wires small/large/small_int/step/bias to the BASE10_* constants")
+    if "pub(crate)fnget_powers()->&'staticModeratePathPowers{&BASE10_POWERS}" not in wiring:
+        miss("lexical.cached.get_powers", "get_powers() no longer returns &BASE10_POWERS")
+    lines.append("")
+    sp = src("lexical/small_powers.rs")
+    lines.append("/-! `lexical/small_powers.rs` (64-bit limbs) -/")
+    lines.append("def pow5_64 : List Nat :=\n  %s" % lean_nat_list(rust_array(sp, "POW5_64", "lexical.small.POW5_64")))
+    lines.append("def pow10_64 : List Nat :=\n  %s" % lean_nat_list(rust_array(sp, "POW10_64", "lexical.small.POW10_64")))
+    mt = re.sub(r"\s+", "", strip_rust_comments(src("lexical/math.rs")))
+    if '#[cfg(fast_arithmetic="64")]pubconstPOW10_LIMB:&[Limb]=&POW10_64;' not in mt or '#[cfg(fast_arithmetic="64")]pubconstPOW5_LIMB:&[Limb]=&POW5_64;' not in mt:
+        miss("lexical.small.limb", "POW10_LIMB/POW5_LIMB are no longer POW10_64/POW5_64 for 64-bit limbs")
+    lines.append("")
+    lp = src("lexical/large_powers64.rs")
+    lines.append("/-! `lexical/large_powers64.rs`: `POW5[k]` (little-endian 64-bit limbs) as naturals; should be 5^(2^k) -/")
+    m = re.search(r"const\s+POW5\s*:\s*\[\s*&\[u64\]\s*;\s*(\d+)\s*\]\s*=\s*\[(.*?)\]\s*;", strip_rust_comments(lp), re.S)
+    bigs = []
+    if not m: miss("lexical.large.POW5", "const POW5: [&[u64]; N] not found")
+    else:
+        names = [x.strip().lstrip("&") for x in m.group(2).split(",") if x.strip()]
+        if len(names) != int(m.group(1)): miss("lexical.large.POW5", "declared length differs from the number of entries")
+        for nm in names:
+            limbs = rust_array(lp, nm, "lexical.large." + nm)
+            if any(x >= 2 ** 64 for x in limbs): miss("lexical.large." + nm, "limb out of u64 range")
+            bigs.append(sum(x << (64 * i) for i, x in enumerate(limbs)))
+    lines.append("def largePow5 : List Nat :=\n  [" + ",\n   ".join(hex(b) for b in bigs) + "]")
+    lines.append("")
+    # num.rs
+    nm_ = src("lexical/num.rs")
+    lines.append("/-! `lexical/num.rs`: exact float power tables (decimal literals, integral) and the per-type constants -/")
+
+    def flt(tok):
+        mm = re.fullmatch(r"\s*(\d+)\.0\s*", tok)
+        if not mm: raise ValueError(tok)
+        return int(mm.group(1))
+    lines.append("def f32Pow10 : List Nat :=\n  %s" % lean_nat_list(rust_array(nm_, "F32_POW10", "lexical.num.F32_POW10", flt)))
+    lines.append("def f64Pow10 : List Nat :=\n  %s" % lean_nat_list(rust_array(nm_, "F64_POW10", "lexical.num.F64_POW10", flt)))
+    m = re.search(r"impl Mantissa for u64\s*\{(.*?)\}", nm_, re.S)
+    mant = dict(re.findall(r"const\s+(\w+)\s*:\s*\w+\s*=\s*([^;]+);", m.group(1))) if m else {}
+    hm = re.search(r"const\s+HALF\s*:\s*i32\s*=\s*Self::FULL\s*/\s*2\s*;", nm_)
+    if not m or not all(k in mant for k in ("HIMASK", "LOMASK", "FULL")) or not hm:
+        miss("lexical.num.mantissa", "impl Mantissa for u64 {HIMASK, LOMASK, FULL} / HALF = FULL / 2 not found")
+        mant = {"HIMASK": "0", "LOMASK": "0", "FULL": "0"}
+    lines.append("def u64Himask : Nat := %d" % rust_int(mant["HIMASK"]))
+    lines.append("def u64Lomask : Nat := %d" % rust_int(mant["LOMASK"]))
+    lines.append("def u64Full : Nat := %d" % rust_int(mant["FULL"]))
+    lines.append("def u64Half : Nat := %d" % (rust_int(mant["FULL"]) // 2))
+    lines.append("")
+    lines.append("/-- constants of `impl Float for f32/f64` -/")
+    lines.append("structure FloatConsts where\n  maxDigits : Nat\n  exponentMask : Nat\n  hiddenBitMask : Nat\n  mantissaMask : Nat\n  infinityBits : Nat\n"
+                 "  mantissaSize : Int\n  exponentBias : Int\n  denormalExponent : Int\n  maxExponent : Int\n  defaultShift : Int\n  carryMask : Nat\n"
+                 "  minExp : Int\n  maxExp : Int\n  mantissaLimit : Int\n  bits : Nat\n  pow10 : List Nat")
+    for ty, bits in (("f32", 32), ("f64", 64)):
+        key = "lexical.num." + ty
+        body = fn_body(nm_, r"impl Float for %s\s*\{" % ty)
+        c = {}
+        if body is None: miss(key, "impl Float for %s not found" % ty); body = ""
+        raw = dict(re.findall(r"const\s+(\w+)\s*:\s*\w+\s*=\s*([^;]+);", body))
+        env = {"FULL": rust_int(mant["FULL"])}
+
+        def ev(expr):
+            e = re.sub(r"\b(?:Self|u64|f32|f64)::(\w+)", lambda mm: str(env[mm.group(1)]), expr.strip())
+            if not re.fullmatch(r"[0-9a-fA-FxX_+\-\s]+", e): raise ValueError(expr)
+            toks = re.findall(r"[+-]|[0-9a-fA-FxX_]+", e)
+            val, sign = 0, 1
+            for t_ in toks:
+                if t_ == "+": sign = 1
+                elif t_ == "-": sign = -1
+                else: val += sign * rust_int(t_); sign = 1
+            return val
+        for k in ("MAX_DIGITS", "EXPONENT_MASK", "HIDDEN_BIT_MASK", "MANTISSA_MASK", "INFINITY_BITS", "MANTISSA_SIZE", "EXPONENT_BIAS",
+                  "DENORMAL_EXPONENT", "MAX_EXPONENT", "DEFAULT_SHIFT", "CARRY_MASK"):
+            try:
+                c[k] = ev(raw[k]); env[k] = c[k]
+            except Exception as e:
+                miss(key + "." + k, "constant not found or not a sum of literals/constants: %r" % (e,)); c[k] = 0; env[k] = 0
+        el = re.search(r"fn exponent_limit\(\)\s*->\s*\(i32,\s*i32\)\s*\{\s*\((-?\d+),\s*(-?\d+)\)\s*\}", body)
+        ml = re.search(r"fn mantissa_limit\(\)\s*->\s*i32\s*\{\s*(\d+)\s*\}", body)
+        if not el: miss(key + ".exponent_limit", "fn exponent_limit() -> (i32, i32) { (a, b) } not found")
+        if not ml: miss(key + ".mantissa_limit", "fn mantissa_limit() -> i32 { n } not found")
+        pw = re.sub(r"\s+", "", fn_body(body, r"fn pow10\b[^{]*\{") or "")
+        tb = "F%s_POW10" % ty[1:]
+        if ("ifn>0{self*%s[nasusize]}else{self/%s[-nasusize]}" % (tb, tb)) not in pw:
+            miss(key + ".pow10", "pow10 is no longer `if n > 0 { self * TABLE[n] } else { self / TABLE[-n] }`")
+        lines.append("def %sConsts : FloatConsts :=\n  { maxDigits := %d, exponentMask := %d, hiddenBitMask := %d, mantissaMask := %d, infinityBits := %d,\n"
+                     "    mantissaSize := %d, exponentBias := %d, denormalExponent := %d, maxExponent := %d, defaultShift := %d, carryMask := %d,\n"
+                     "    minExp := %s, maxExp := %s, mantissaLimit := %s, bits := %d, pow10 := %sPow10 }" % (
+                         ty, c["MAX_DIGITS"], c["EXPONENT_MASK"], c["HIDDEN_BIT_MASK"], c["MANTISSA_MASK"], c["INFINITY_BITS"],
+                         c["MANTISSA_SIZE"], c["EXPONENT_BIAS"], c["DENORMAL_EXPONENT"], c["MAX_EXPONENT"], c["DEFAULT_SHIFT"], c["CARRY_MASK"],
+                         el.group(1) if el else "0", el.group(2) if el else "0", ml.group(1) if ml else "0", bits, ty))
+    lines.append("")
+    # errors.rs
+    er = re.sub(r"\s+", "", strip_rust_comments(src("lexical/errors.rs")))
+    m = re.search(r"fnerror_scale\(\)->u32\{(\d+)\}", er)
+    if not m: miss("lexical.errors.scale", "fn error_scale() -> u32 { n } not found")
+    if "fnerror_halfscale()->u32{u64::error_scale()/2}" not in er: miss("lexical.errors.halfscale", "error_halfscale is no longer error_scale() / 2")
+    lines.append("/-! `lexical/errors.rs` -/")
+    lines.append("def errorScale : Nat := %s" % (m.group(1) if m else "0"))
+    lines.append("def errorHalfscale : Nat := %s" % (str(int(m.group(1)) // 2) if m else "0"))
+    shapes = [
+        ("lexical.errors.bias", "letbias=-(F::EXPONENT_BIAS-F::MANTISSA_SIZE);letdenormal_exp=bias-63;"),
+        ("lexical.errors.extrabits", "letextrabits=iffp.exp<=denormal_exp{64-F::MANTISSA_SIZE+denormal_exp-fp.exp}else{63-F::MANTISSA_SIZE};"),
+        ("lexical.errors.underflow", "ifextrabits>65{returntrue;}nearest_error_is_accurate(errors,fp,extrabits)"),
+        ("lexical.errors.nearest65", "ifextrabits==65{!fp.mant.overflowing_add(errors).1}else{"),
+        ("lexical.errors.cmp", "letcmp1=halfway.wrapping_sub(errors)<extra;letcmp2=extra<halfway.wrapping_add(errors);!(cmp1&&cmp2)"),
+    ]
+    okshape = True
+    for k, w in shapes:
+        if w not in er: miss(k, "expression changed shape (expected `%s`)" % w); okshape = False
+    lines.append("/-- the comparisons and shift constants of `error_is_accurate`/`nearest_error_is_accurate` are as transcribed in `Model.Lexical` -/")
+    lines.append("def errorsShapeAsTranscribed : Bool := %s" % ("true" if okshape else "false"))
+    lines.append("")
+    # algorithm.rs / bhcomp.rs / rounding.rs / float.rs / math.rs shapes the model transcribes
+    al = re.sub(r"\s+", "", strip_rust_comments(src("lexical/algorithm.rs")))
+    m = re.search(r"fp\.mant=1<<(\d+);fp\.exp=(0x[0-9A-Fa-f]+|\d+);", al)
+    if not m: miss("lexical.algorithm.overflow", "`fp.mant = 1 << 63; fp.exp = 0x7FF;` not found")
+    lines.append("/-! `lexical/algorithm.rs`: the infinity marker of `multiply_exponent_extended` -/")
+    lines.append("def overflowMantShift : Nat := %s" % (m.group(1) if m else "0"))
+    lines.append("def overflowExp : Int := %d" % (int(m.group(2), 0) if m else 0))
+    ashapes = [
+        ("lexical.algorithm.errors", "iferrors>0{errors+=1;}errors+=u64::error_halfscale();letshift=fp.normalize();errors<<=shift;u64::error_is_accurate::<F>(errors,fp)"),
+        ("lexical.algorithm.truncated", "iftruncated{errors+=u64::error_halfscale();}"),
+        ("lexical.algorithm.index", "letexponent=exponent.saturating_add(powers.bias);letsmall_index=exponent%powers.step;letlarge_index=exponent/powers.step;"),
+        ("lexical.algorithm.fast", "}elseifexponent>=0&&exponent<=max_exp+shift_exp{letsmall_powers=POW10_64;letshift=exponent-max_exp;"),
+    ]
+    for k, w in ashapes:
+        if w not in al: miss(k, "expression changed shape (expected `%s`)" % w)
+    bh = re.sub(r"\s+", "", strip_rust_comments(src("lexical/bhcomp.rs")))
+    bshapes = [
+        ("lexical.bhcomp.step", "letsmall_powers=POW10_LIMB;letstep=small_powers.len()-2;letmax_digits=F::MAX_DIGITS-1;"),
+        ("lexical.bhcomp.sticky", "ifi<integer.len()+fraction.len(){result.imul_small(10);result.iadd_small(1);}"),
+        ("lexical.bhcomp.count", "letcount=F::MAX_DIGITS.min(integer_digits+fraction_digits-digits_start);letscaled_exponent=sci_exp+1-countasi32;"),
+        ("lexical.bhcomp.bh", "ExtendedFloat{mant:(b.mant<<1)+1,exp:b.exp-1,}"),
+        ("lexical.bhcomp.round", "ifis_halfway&&is_truncated{is_above=true;is_halfway=false;}tie_even(fp,is_above,is_halfway);"),
+        ("lexical.bhcomp.compare", "cmp::Ordering::Greater=>f.next_positive(),cmp::Ordering::Less=>f,cmp::Ordering::Equal=>f.round_positive_even(),"),
+    ]
+    for k, w in bshapes:
+        if w not in bh: miss(k, "expression changed shape (expected `%s`)" % w)
+    ro = re.sub(r"\s+", "", strip_rust_comments(src("lexical/rounding.rs")))
+    rshapes = [
+        ("lexical.rounding.nearest", "lettruncated_bits=fp.mant&mask;letis_above=truncated_bits>halfway;letis_halfway=truncated_bits==halfway;overflowing_shr(fp,shift);(is_above,is_halfway)"),
+        ("lexical.rounding.tie_even", "letis_odd=fp.mant&1==1;ifis_above||(is_odd&&is_halfway){fp.mant+=1;}"),
+        ("lexical.rounding.carry", "iffp.mant&F::CARRY_MASK==F::CARRY_MASK{shr(fp,1);}"),
+    ]
+    for k, w in rshapes:
+        if w not in ro: miss(k, "expression changed shape (expected `%s`)" % w)
+    if "letls=r0.leading_zeros();letrs=64-ls;letv=matchls{0=>r0,_=>(r0<<ls)|(r1>>rs),};letn=r1<<ls!=0;(v,n)" not in mt:
+        miss("lexical.math.hi64", "u64_to_hi64_2 changed shape (value and sticky flag)")
+    if "let(v,n)=u64_to_hi64_2(r0,r1);(v,n||nonzero(self,2))" not in mt:
+        miss("lexical.math.hi64_2", "hi64_2 for u64 limbs changed shape")
+
+
+GENERATORS.append(("Lexical", gen_lexical))
+
+
 def main():
     os.makedirs(OUT, exist_ok=True)
     for name, fn in GENERATORS:
